@@ -801,8 +801,10 @@ func (w *worker) run(bi int, beh []map[string]any, res *vh.Result) {
 			if rp.Pres {
 				viol("C05", "presence-after-close", "presence entry survives the closed connection")
 			}
-			if n := w.env.Node.Hub().NumClients(); n != 0 {
-				viol("C05", "client-after-close", fmt.Sprintf("%d connections still registered after close", n))
+			// only this behaviour's connection: the previous behaviour's connection on this node is closed
+			// asynchronously (Client.Disconnect) and may not have left the hub yet
+			if _, still := w.env.Node.Hub().Connections()[r.client]; still {
+				viol("C05", "client-after-close", "the closed connection is still registered in the hub")
 			}
 		}
 		if settled && rp.Subscribed != rp.Pres {
